@@ -139,6 +139,11 @@ def run(tier, replay=None):
         for ename, e in ends.items():
             for tmpl in ('write("ab%s\ncd")', 'write(#"ab%s\ncd")', 'write("ab%s\n%s\ncd" + "!")', 'write(["x%s\ny", 1][0])', 'if true {\nwrite("p%s\nq")\n}'):
                 ag.append((ename, tmpl % tuple([e] * tmpl.count("%s"))))
+        # a line break at every kind of token boundary of a one-statement text: where -eval takes the text as one statement, the other modes do too
+        for txt in ['write(\n"a")', 'write(toa(id(1,\n2)))', 'for i <- fromto(0,\n3) write(toa(i))', 'write(toa(1 +\n2))', 'write(toa((1 +\n2)))', 'x =\n5', 'write(toa([1,\n2]))', 'write(toa([\n1, 2\n]))',
+                    'g = (a,\nb) -> a', 'if true\nwrite("x")', 'if true {\nwrite("x")\n}', 'write(toa(#\n"ab"))', 'write(toa([1, 2][\n0]))', 'write(toa([1, 2, 3][0 :\n2]))', 'write(toa(fromto(\n0, 1) == 0))',
+                    'while false\nwrite("w")', 'for i\n<- fromto(0, 2) write(toa(i))', 'h = () ->\n7', 'write(toa(-\n1))', 'return\n1']:
+            ag.append(("a line break between two tokens of a statement", txt))
         agjobs = []
         for ename, txt in ag:
             agjobs += [(ename, txt, "eval", txt), (ename, txt, "file", txt + "\n"), (ename, txt, "file", txt), (ename, txt, "repl", txt + "\n")]
@@ -164,8 +169,8 @@ def run(tier, replay=None):
                 continue       # not a statement the parser accepts, or one that fails at run time (its report carries addresses): nothing to agree on
             for mode, nl, rc, norm, ename in runs:
                 if mode != "eval" and (rc != 0 or norm != ref[3]):
-                    ck.violation("a string literal spanning lines (inner line ends in %s): %r prints %r with -eval but %r in %s mode%s" % (
-                        ename, txt[:120], ref[3][:120], norm[:200], mode, "" if nl or mode == "repl" else " without a final line break"), {"statement": txt, "mode": mode, "stdout": norm})
+                    ck.violation("%s: %r prints %r with -eval but %r in %s mode%s" % (
+                        ename if ename.startswith("a line break") else "a string literal spanning lines (inner line ends in %s)" % ename, txt[:120], ref[3][:120], norm[:200], mode, "" if nl or mode == "repl" else " without a final line break"), {"statement": txt, "mode": mode, "stdout": norm})
         ck.part("mode agreement on string literals spanning lines with unusual inner line ends", statements=len(ag), runs=len(agjobs))
         # ---- what a statement wrote before it failed comes before the report of the failure, and later statements' output after it, in
         # file mode as in the REPL (the report itself carries addresses and is not compared)
